@@ -2,7 +2,7 @@
 Helper lemmas for the union-find internals (C05): counting over `List.range`, point updates,
 unique-element filters, `np.unique`, set union of duplicate-free lists.  Core Lean only.
 -/
-import PanqecVerif.Model.UnionFind
+import PanqecVerif.Model.UnionFindWF
 
 namespace Panqec.UF
 
@@ -10,9 +10,6 @@ set_option linter.unusedSimpArgs false
 set_option linter.unusedVariables false
 
 /-! ### counting over `0 … m-1` -/
-
-/-- number of `i < m` with `f i` -/
-def cnt (m : Nat) (f : Nat → Bool) : Nat := (List.range m).countP f
 
 @[simp] theorem cnt_zero (f : Nat → Bool) : cnt 0 f = 0 := rfl
 
